@@ -440,4 +440,55 @@ Proof.
   - contradiction.
 Qed.
 
+
+(* ---------- the queue after every rule (rule-list level statement) ---------- *)
+
+Definition created_l (mats prods : artifacts) : list str := sdiff (path_set prods) (path_set mats).
+Definition deleted_l (mats prods : artifacts) : list str := sdiff (path_set mats) (path_set prods).
+Definition modified_l (mats prods : artifacts) : list str :=
+  filter (fun name => negb (deep_equal (alookup mats name) (alookup prods name)))
+         (sinter (path_set mats) (path_set prods)).
+
+Theorem queue_eq_spec meta mats prods src rules :
+  wf_meta meta -> wf_artifacts mats -> wf_artifacts prods -> src = mats \/ src = prods ->
+  wf_rules rules ->
+  match verify_rules gm meta src (created_l mats prods) (deleted_l mats prods) (modified_l mats prods)
+                     rules (path_set src) with
+  | Ok q' => exists srs, Forall2 rule_shape rules srs /\
+                         accepts gm meta mats prods src srs (dom src) /\ NoDup q' /\
+                         forall a, In a q' <-> queue_after gm meta mats prods src srs (dom src) a
+  | Err _ => ~ rules_ok gm meta mats prods src rules (dom src)
+  | Panic _ => False
+  end.
+Proof.
+  intros Hmeta Hm Hp Hsrc Hwf.
+  assert (Hs : wf_artifacts src) by (destruct Hsrc; subst; assumption).
+  assert (Hcl : forall a, In a (created_l mats prods) <-> created mats prods a).
+  { intro a. unfold created_l, created. rewrite In_sdiff, !In_path_set_dom by assumption. reflexivity. }
+  assert (Hdl : forall a, In a (deleted_l mats prods) <-> deleted mats prods a).
+  { intro a. unfold deleted_l, deleted. rewrite In_sdiff, !In_path_set_dom by assumption. reflexivity. }
+  assert (Hml : forall a, In a (modified_l mats prods) <-> modified mats prods a) by (apply modified_spec; assumption).
+  assert (Hnd : NoDup (path_set src)) by (rewrite path_set_wf by assumption; apply Hs).
+  assert (Hq : forall a, In a (path_set src) -> dom src a) by (intro a; apply In_path_set_dom; assumption).
+  assert (E : pset_eq (In_ (path_set src)) (dom src)) by (intro a; apply In_path_set_dom; assumption).
+  pose proof (verify_rules_spec meta mats prods src _ _ _ Hmeta Hs Hcl Hdl Hml rules _ Hwf Hnd Hq) as R.
+  destruct (verify_rules gm meta src (created_l mats prods) (deleted_l mats prods) (modified_l mats prods)
+                         rules (path_set src)) as [q'|c|s]; cbn [rules_post] in R.
+  - destruct R as (srs & Hsh & Hacc & Hnd' & Hq'). exists srs. repeat split; try assumption.
+    + apply (accepts_ext meta mats prods src srs _ _ E), Hacc.
+    + intro H. apply (queue_after_ext meta mats prods src srs _ _ E), Hq', H.
+    + intro H. apply Hq'. apply (queue_after_ext meta mats prods src srs _ _ E), H.
+  - intros (srs & Hsh & Hacc). apply R. exists srs. split; [exact Hsh|].
+    apply (accepts_ext meta mats prods src srs _ _ E), Hacc.
+  - exact R.
+Qed.
+
+(* "up to permutation": any duplicate-free listing of the spec's queue is a permutation
+   of the model's queue *)
+Lemma queue_permutation (q' l : list str) (Q : pset) :
+  NoDup q' -> (forall a, In a q' <-> Q a) -> NoDup l -> (forall a, In a l <-> Q a) -> Permutation q' l.
+Proof.
+  intros N1 H1 N2 H2. apply NoDup_Permutation; try assumption. intro a. rewrite H1, H2. reflexivity.
+Qed.
+
 End Main.
